@@ -127,6 +127,8 @@ SW_PropCoherent(o) == \A i \in DOMAIN o.prop : Coherent(o.prop[i])
 SW_Update(o)       == /\ Len(o.slots) = Len(cur) /\ Len(o.mask) = Len(cur) /\ Len(o.prop) = Len(cur)
                       /\ o.slots = SweepPost(o.mask, o.prop)
 SW_Evals(o)        == o.dEvals = cfg.np
+\* documented behaviour beyond the listed properties: step sizes stay finite (tpCN: within [0, min(2.38/sqrt(d), 0.99)])
+SW_SigmaBounds(o)  == o.sigmaOK
 
 \* ---- MutateEnd.  o = [slots, calls, dEvals]   (dEvals: evaluations since MutateBegin)
 ME_Slots(o) == o.slots = cur
@@ -145,6 +147,8 @@ CM_Coherent(o)   == \A i \in DOMAIN o.batch : Coherent(o.batch[i])
 CM_NoInf(o)      == \A i \in DOMAIN cur : cur[i].fin
 \* the blobs visible in the current state (returned by sample()) are absent or belong to these particles
 CM_BlobsVisible(o) == o.blobsOK
+\* the temperature, evidence, ESS and counters recorded in the history for this iteration are the current ones
+CM_ScalarsRecorded(o) == o.scalarsOK
 
 \* ---- Terminate.  o = [nearOne, essPost, evid, evidAt]
 TM_NearOne(o)  == o.nearOne
@@ -166,11 +170,12 @@ MP_Clauses(o) == [MP_Count |-> MP_Count(o), MP_Coherent |-> MP_Coherent(o), MP_N
                   MP_Calls |-> MP_Calls(o), MP_Evals |-> MP_Evals(o), MP_LogzHull |-> MP_LogzHull(o)]
 MB_Clauses(o) == [MB_SameSlots |-> MB_SameSlots(o), MB_Labels |-> MB_Labels(o), MB_ModesOK |-> MB_ModesOK(o),
                   MB_Boundaries |-> MB_Boundaries(o)]
-SW_Clauses(o) == [SW_PropCoherent |-> SW_PropCoherent(o), SW_Update |-> SW_Update(o), SW_Evals |-> SW_Evals(o)]
+SW_Clauses(o) == [SW_PropCoherent |-> SW_PropCoherent(o), SW_Update |-> SW_Update(o), SW_Evals |-> SW_Evals(o),
+                  SW_SigmaBounds |-> SW_SigmaBounds(o)]
 ME_Clauses(o) == [ME_Slots |-> ME_Slots(o), ME_Calls |-> ME_Calls(o), ME_Swept |-> ME_Swept(o),
                   ME_Steps |-> ME_Steps(o), ME_SweepBounds |-> ME_SweepBounds(o)]
 CM_Clauses(o) == [CM_Append |-> CM_Append(o), CM_OnePerKey |-> CM_OnePerKey(o), CM_PrefixSame |-> CM_PrefixSame(o),
-                  CM_Coherent |-> CM_Coherent(o), CM_NoInf |-> CM_NoInf(o), CM_BlobsVisible |-> CM_BlobsVisible(o),
+                  CM_Coherent |-> CM_Coherent(o), CM_NoInf |-> CM_NoInf(o), CM_BlobsVisible |-> CM_BlobsVisible(o), CM_ScalarsRecorded |-> CM_ScalarsRecorded(o),
                   CallsExact |-> calls = evals]
 TM_Clauses(o) == [TM_NearOne |-> TM_NearOne(o), TM_ESS |-> TM_ESS(o), TM_Evidence |-> TM_Evidence(o)]
 
